@@ -37,6 +37,8 @@ def _enc(k, v):
     """attribute value -> its Atts encoding (styles: 1 = False, 2 = True; colours: the SGR number)"""
     if isinstance(v, bool):
         return z3.IntVal(2 if v else 1)
+    if isinstance(v, Sym):
+        return v.t
     return v
 
 
